@@ -198,6 +198,10 @@ func buildFamilies() []family {
 			sc, what := jmpOffCase(i)
 			return kase{sc, "JMP|" + what, "jump offsets " + what}
 		}},
+		{"slots", 4 * 4 * 5 * 8 * 8, func(i int) kase {
+			sc, what := slotCase(i)
+			return kase{sc, what, what}
+		}},
 		{"limits", 3 * 98, func(i int) kase {
 			sc, what := limitsCase(i)
 			return kase{sc, what, what}
